@@ -14,7 +14,7 @@ LEVELS = {
             "Frame are exercised by the oracle with all five clauses evaluated on the implementation objects after every step", "5/C09",
             "Coq invariant over all operation sequences + exact correspondence + construction-path oracle (partial)"),
     "C15": ("PARTIAL. cv2.findContours is a black box. Proved: vertices are interned by pixel position and there is one cell per contour "
-            "with one vertex per contour pixel; the large-area filter keeps a contour exactly by its own area, independently of contour order, "
+            "with one vertex per contour pixel, one mesh edge per unordered pair of consecutive contour vertices, a border cell has a vertex of its own; the large-area filter keeps a contour exactly by its own area, independently of contour order, "
             "and commutes with translations, flips, transposition and quarter turns (models compared on the actual OpenCV output). One cell per region, border flags, internal "
             "interfaces, junction count, Frame construction and their equality under the 8 symmetries / padding / mirror_y are evaluated "
             "by the oracle on square and honeycomb raster lattices (known topology) and the shipped images", "5/C15",
